@@ -612,7 +612,7 @@ int main(int argc, char **argv) {
 	uint64_t only = vh::argU64(argc, argv, 5, ~0ull); // run just this case of the stream (replaying a single failing case)
 	std::filesystem::path scratch = std::filesystem::path("/var/tmp") / ("verif_c20_" + std::to_string(getpid()) + "_" + std::to_string(seed));
 	std::cout << "# prop=C20 seed=" << seed << " ncases=" << ncases << " ncycles=" << ncycles << " mode=" << mode << "\n";
-	Rng master(seed * 0x9E3779B97F4A7C15ull + 20);
+	Rng master(vh::hashSeed(seed) + 20);
 	for (uint64_t c = 0; c < ncases; c++) {
 		Rng rng = master.fork();
 		if (only != ~0ull && c != only) continue;
